@@ -5,6 +5,7 @@ import (
 	"go/ast"
 	"go/token"
 	"go/types"
+	"os"
 	"sort"
 	"strings"
 )
@@ -12,7 +13,7 @@ import (
 func init() {
 	register(&propDef{
 		ID:          "C12",
-		Explanation: "Decides, for the per-context registries of package templ and the generator's hoisting: R1 every `already rendered?` query is a check-then-record — on the not-yet-rendered side the paired record call follows with the same key, and the emission of the script/class/once body sits on that side only; R2 the registry methods touch only fields of their receiver (no package-level state), and the registry lives in the context value created per InitializeContext; R3 the two type switches over class containers agree: every container type from which the class-NAME switch extracts a component class has an acting case in the CSS-RULE switch, and every acting case of the rule switch has a case in the name switch (otherwise a class is named without its rule, or ruled under the unknown-type name); R4 on every emission path of an element writer, the calls that emit RenderCSSItems / RenderScriptItems precede the element's `<name` literal (GEM); R5 the CSS middleware records every registered class in the context it passes to the next handler and serves them from the stylesheet endpoint. R6 the map fields of the per-render state are only assigned freshly made maps (never an existing map, which would be shared between requests); R7 the once-handle registry is keyed by the handle's identity (its pointer), not by a field that only the constructor sets. R8 a render has one state object (stored by InitializeContext only, never copied by value), so marks are seen by the whole render. R9 the collector of script definitions and the attribute writer hand the event-handler predicate the attribute name in the same form. R10 every element emitter of the generator that hands an attribute list to the attribute emitter has handed the same list to the script collector first on every path (dominance), and the collector looks into both arms of conditional attributes. NOT decided: counts/positions in concrete rendered documents. R11 the collector of an element's script attributes hands the Then/Else lists of a conditional attribute to code that looks for conditional attributes itself (nesting). R12 a caller's slice of items is never filtered or appended to in place.",
+		Explanation: "Decides, for the per-context registries of package templ and the generator's hoisting: R1 every `already rendered?` query is a check-then-record — on the not-yet-rendered side the paired record call follows with the same key, and the emission of the script/class/once body sits on that side only; R2 the registry methods touch only fields of their receiver (no package-level state), and the registry lives in the context value created per InitializeContext; R3 the two type switches over class containers agree: every container type from which the class-NAME switch extracts a component class has an acting case in the CSS-RULE switch, and every acting case of the rule switch has a case in the name switch (otherwise a class is named without its rule, or ruled under the unknown-type name); R4 on every emission path of an element writer, the calls that emit RenderCSSItems / RenderScriptItems precede the element's `<name` literal (GEM); R5 the CSS middleware records every registered class in the context it passes to the next handler and serves them from the stylesheet endpoint. R6 the map fields of the per-render state are only assigned freshly made maps (never an existing map, which would be shared between requests); R7 the once-handle registry is keyed by the handle's identity (its pointer), not by a field that only the constructor sets. R8 a render has one state object (stored by InitializeContext only, never copied by value), so marks are seen by the whole render. R9 the collector of script definitions and the attribute writer hand the event-handler predicate the attribute name in the same form. R10 every element emitter of the generator that hands an attribute list to the attribute emitter has handed the same list to the script collector first on every path (dominance), and the collector looks into both arms of conditional attributes. NOT decided: counts/positions in concrete rendered documents. R11 the collector of an element's script attributes hands the Then/Else lists of a conditional attribute to code that looks for conditional attributes itself (nesting). R12 a caller's slice of items is never filtered or appended to in place. R1 also follows forwarding accessors (`return v.seen(prefix + s)`). R3 tells the class-name switch and the CSS-rule switch apart by what they read. R13 over the paths of the CSS-rule function (helpers enumerated in place): the Key of a KeyValue[…, bool] is handed on for rendering only on paths that found its Value true. R14 every Sum of a hash is Sum(nil) on a hash that was written to (the short hash in a script's JavaScript name digests the body).",
 		Assumptions: []string{"map membership is the only state of the registry"},
 		Trusted:     []string{"go/types", "go/parser", "x/tools go/packages, go/cfg"},
 		Run:         runC12,
@@ -584,6 +585,88 @@ func runC12(c *Ctx) {
 				fmt.Sprintf("the CSS-rule switch (%s) emits rules for %s but the class-name switch (%s) has no case for it: the rule is emitted and the element gets the unknown-type class name", ruleSw.fd.Name.Name, t, nameSw.fd.Name.Name))
 		}
 	}
+
+	// R13: a conditional item — the Key of a templ.KV(key, cond) — has its rule emitted on exactly the paths on which its
+	// Value (the condition) is true: decided over the paths of the rule switch's function, helpers enumerated in place.
+	if ruleSw != nil {
+		fd := ruleSw.fd
+		decls := map[types.Object]*ast.FuncDecl{}
+		for _, d := range allFuncDecls(p) {
+			decls[info.Defs[d.Name]] = d
+		}
+		den := &denum{info: info, pkg: p.Types, inits: map[types.Object]ast.Expr{}, limit: 20000, opaqueLoops: true, loopsOnce: true, inlineVals: true, decls: decls,
+			noInline: map[types.Object]bool{info.Defs[fd.Name]: true}} // (the recursive call on the item is the use that is looked for)
+		den.finish(den.run(fd.Body.List, []dstate{{env: map[types.Object]ast.Expr{}}}))
+		key := funcKey(p, fd) + "|conditional-items-emitted-iff-enabled"
+		if den.undecided != "" {
+			c.undec("C12.R13", key, c.pos(fd.Pos()), den.undecided)
+		} else {
+			isKV := func(e ast.Expr) bool {
+				t := info.TypeOf(e)
+				return t != nil && strings.Contains(t.String(), ".KeyValue[") && strings.HasSuffix(t.String(), "bool]")
+			}
+			nuse := 0
+			bad := ""
+			for _, pth := range den.paths {
+				for _, st := range pth.Trace {
+					ast.Inspect(st, func(n ast.Node) bool {
+						call, ok := n.(*ast.CallExpr)
+						if !ok {
+							return true
+						}
+						for _, a := range call.Args {
+							ae := ast.Unparen(den.subst(a, pth.Env, 0))
+							se, ok := ae.(*ast.SelectorExpr)
+							if !ok || se.Sel.Name != "Key" || !isKV(se.X) {
+								continue
+							}
+							nuse++
+							want := types.ExprString(se.X) + ".Value"
+							enabled, tested := false, false
+							for _, pc := range pth.Conds {
+								ce := ast.Unparen(den.subst(pc.Expr, pth.Env, 0))
+								val := pc.Val
+								for {
+									if ue, ok := ce.(*ast.UnaryExpr); ok && ue.Op == token.NOT {
+										ce, val = ast.Unparen(ue.X), !val
+										continue
+									}
+									break
+								}
+								if types.ExprString(ce) == want {
+									tested, enabled = true, val
+								}
+							}
+							if os.Getenv("TEMPLVET_DEBUG") == "C12R13" {
+								var cs []string
+								for _, pc := range pth.Conds {
+									cs = append(cs, fmt.Sprintf("%s=%v", types.ExprString(den.subst(pc.Expr, pth.Env, 0)), pc.Val))
+								}
+								fmt.Fprintf(os.Stderr, "DEBUG C12.R13 use %s at %s conds %v\n", types.ExprString(ae), c.pos(call.Pos()), cs)
+							}
+							if (!tested || !enabled) && bad == "" {
+								how := "without its condition having been looked at"
+								if tested {
+									how = "on the path on which " + want + " is FALSE"
+								}
+								bad = fmt.Sprintf("%s is handed on for rendering at %s %s", types.ExprString(ae), c.pos(call.Pos()), how)
+							}
+						}
+						return true
+					})
+				}
+			}
+			if nuse == 0 {
+				c.viol("C12.R13", "anchor-lost:conditional-css-items", "", "no path of "+fd.Name.Name+" hands the Key of a KeyValue[…, bool] on")
+			} else {
+				c.check(bad == "", "C12.R13", key, c.pos(fd.Pos()), fmt.Sprintf("%d uses of a conditional item's key, each on a path that found its condition true", nuse),
+					fmt.Sprintf("%s: %s — a class that is switched on gets its name but no rule, and one that is switched off gets a rule nobody asked for", fd.Name.Name, bad))
+			}
+		}
+	}
+
+	// R14: the short hash in a script's JavaScript name digests the script's body
+	hashSumsAreOfWhatWasWritten(c, "C12.R14", "generator", ".")
 
 	// R4 ------------------------------------------------------------
 	gHoist(c, "C12.R4")
